@@ -246,6 +246,21 @@ def process_unit(unit, tier, seed):
     for f, v in bd.items():
         r["per_function"].append(dict(function=f, backend="verus/z3", ms=v.get("time"), rlimit=v.get("rlimit"),
                                       success=v.get("success")))
+    if tier == "thorough" and not r["failures"]:
+        # stability: the same unit under two further Z3 seeds. A function that flips is reported as unstable in the
+        # evidence (a brittle proof is a future false alarm); it never changes the verdict of this run.
+        base = 7 * (seed or 0)
+        r["stability"] = dict(seeds=[base + 1, base + 2], unstable=[])
+        for sd in r["stability"]["seeds"]:
+            mm = run_verus(main_rs, None, sd)
+            r["wall"] += mm["wall"]
+            rr = mm["result"]
+            if rr is None or "verification-results" not in rr:
+                r["stability"]["unstable"].append(f"seed {sd}: no result")
+                continue
+            for f, v in breakdown(rr).items():
+                if v.get("success") is False:
+                    r["stability"]["unstable"].append(f"seed {sd}: {f}")
     # canaries
     cres = c["result"]
     failing_fns = {f["fn"] for f in r["failures"] if f["fn"]}
@@ -368,11 +383,12 @@ def main():
     n_obl = len(clauses) + len(fn_owned)
     failed_keys = set()
     for f in owned_fail:
-        if f["tags"]:
-            for t in f["tags"]:
-                if t.split(".")[0] == prop:
-                    failed_keys.add(("tag", t))
-        else:
+        mine = [t for t in f["tags"] if t.split(".")[0] == prop]
+        for t in mine:
+            failed_keys.add(("tag", t))
+        if not mine:
+            # owned through the function (an implicit obligation, or a clause tagged for another property in a function
+            # this property depends on): the function's obligation counts as failed
             failed_keys.add(("fn", f["fn"]))
     n_failed = 0
     for c in clauses:
@@ -463,6 +479,7 @@ def main():
                      obligation="all implicit safety obligations (panic/overflow/index/termination) of this body")
                 for f in fn_owned[:4]]
     ev = dict(
+        stability=[dict(unit=r["unit"], **r["stability"]) for r in results if r.get("stability")],
         property_id=prop, tier=tier, seed=seed, level="proof" if rc != 2 else "other",
         coverage=dict(
             obligations=n_obl, discharged=n_obl - n_failed,
